@@ -267,11 +267,16 @@ impl<'a, R: Read> ChunkedReader<'a, R> {
         if self.inner.read_line(&mut line)? == 0 {
             return Err(io::Error::new(ErrorKind::UnexpectedEof, "chunk size eof"));
         }
-        let hex = line
-            .split(';')
-            .next()
-            .unwrap_or("")
-            .trim_end_matches(['\r', '\n']);
+        // a size line without its LF was cut off by the end of the stream
+        let line = line
+            .strip_suffix('\n')
+            .ok_or_else(|| io::Error::new(ErrorKind::UnexpectedEof, "chunk size truncated"))?;
+        let line = line.strip_suffix('\r').unwrap_or(line);
+        let hex = line.split(';').next().unwrap_or("");
+        // chunk-size = 1*HEXDIG (from_str_radix alone would also take a sign)
+        if hex.is_empty() || !hex.bytes().all(|b| b.is_ascii_hexdigit()) {
+            return Err(io::Error::new(ErrorKind::InvalidData, "invalid chunk size"));
+        }
         self.remaining_in_chunk = usize::from_str_radix(hex, 16)
             .map_err(|_| io::Error::new(ErrorKind::InvalidData, "invalid chunk size"))?;
         self.state = if self.remaining_in_chunk == 0 {
